@@ -51,6 +51,20 @@ type c07PS struct {
 func (e *c07PS) Error() string { return "n" + strconv.Itoa(e.id) }
 func (e *c07PS) Unwrap() error { return e.cause }
 
+// c07PD: like c07PS, but Error() DELEGATES to the cause (as *fs.PathError or an "op: cause" error does)
+type c07PD struct {
+	id    int
+	cause error
+}
+
+func (e *c07PD) Error() string {
+	if e.cause != nil {
+		return "n" + strconv.Itoa(e.id) + ": " + e.cause.Error()
+	}
+	return "n" + strconv.Itoa(e.id)
+}
+func (e *c07PD) Unwrap() error { return e.cause }
+
 type c07PM struct {
 	id     int
 	causes []error
@@ -195,9 +209,9 @@ func init() {
 
 func c07IsErrdef(k string) bool { return k == "ew" || k == "ej" || k == "en" || k == "rs" }
 func c07IsValue(k string) bool  { return k == "vs" || k == "vm" }
-func c07IsSingle(k string) bool { return k == "ps" || k == "vs" || k == "np" }
+func c07IsSingle(k string) bool { return k == "ps" || k == "vs" || k == "np" || k == "pd" }
 func c07IsForeign(k string) bool {
-	return k == "ps" || k == "pm" || k == "vs" || k == "vm" || k == "mm" || k == "np" || k == "sl"
+	return k == "ps" || k == "pm" || k == "vs" || k == "vm" || k == "mm" || k == "np" || k == "sl" || k == "pd"
 }
 func c07BadField(f string) bool {
 	return f == "chan" || f == "func" || f == "nan" || f == "inf" || f == "selfmap"
@@ -208,6 +222,26 @@ func c07Valid(d c07Item) bool {
 	n := len(d.Nodes)
 	if d.Recv < 0 || d.Recv >= n || !c07IsErrdef(d.Nodes[d.Recv].Kind) {
 		return false
+	}
+	// errors whose Error() delegates to the cause must not form a cycle among themselves: their own
+	// Error() would not terminate, whatever the library does
+	{
+		isPD := func(i int) bool { return i >= 0 && i < n && d.Nodes[i].Kind == "pd" }
+		for i := range d.Nodes {
+			if !isPD(i) {
+				continue
+			}
+			seen := map[int]bool{}
+			for x := i; isPD(x) && len(d.Nodes[x].Causes) > 0; x = d.Nodes[x].Causes[0] {
+				if seen[x] {
+					return false
+				}
+				seen[x] = true
+				if c := d.Nodes[x].Causes[0]; c < 0 || c >= n {
+					break
+				}
+			}
+		}
 	}
 	nps := 0
 	for i, nd := range d.Nodes {
@@ -501,6 +535,8 @@ func c07Build(d c07Item) (b *c07Built, problem string) {
 		switch nd.Kind {
 		case "ps":
 			b.errs[i] = &c07PS{id: i}
+		case "pd":
+			b.errs[i] = &c07PD{id: i}
 		case "np":
 			b.errs[i] = (*c07NP)(nil)
 			c07NPId, c07NPCause = i, nil
@@ -608,6 +644,8 @@ func c07Build(d c07Item) (b *c07Built, problem string) {
 		switch nd.Kind {
 		case "ps":
 			b.errs[i].(*c07PS).cause = one
+		case "pd":
+			b.errs[i].(*c07PD).cause = one
 		case "np":
 			c07NPCause = one
 		case "pm":
@@ -1106,7 +1144,7 @@ func c07Exhaustive(emit func(c07Item)) {
 	}
 }
 
-var c07Kinds = []string{"ps", "ps", "ps", "pm", "pm", "pm", "pm", "vs", "vs", "vm", "vm", "mm", "sl", "ew", "ew", "ej", "ej", "en", "rs"}
+var c07Kinds = []string{"ps", "ps", "pd", "pm", "pm", "pm", "pm", "vs", "vs", "vm", "vm", "mm", "sl", "ew", "ew", "ej", "ej", "en", "rs"}
 var c07FineFields = []string{"", "", "", "", "plain", "multiline", "huge", "niltime", "nilmarsh", "niltext", "nilany"}
 
 // a random graph of n inner nodes of mixed kinds plus an errdef receiver (node n)
@@ -1240,6 +1278,10 @@ func c07Fixed() []c07Item {
 		return c07Item{Nodes: nodes, Recv: recv, Class: class}
 	}
 	return []c07Item{
+		// an error whose Error() delegates to its cause, on a cycle closed after the errdef errors were made
+		mk("delegating-error-cycle", 1, c07Node{Kind: "pd", Causes: []int{1}}, c07Node{Kind: "ew", Causes: []int{0}}),
+		mk("delegating-error-cycle", 2, c07Node{Kind: "pd", Causes: []int{1}}, c07Node{Kind: "ew", Causes: []int{0}}, c07Node{Kind: "ej", Causes: []int{1, 0}}),
+		mk("delegating-error-cycle", 2, c07Node{Kind: "pd", Causes: []int{1}}, c07Node{Kind: "pd", Causes: []int{2}}, c07Node{Kind: "ew", Causes: []int{0}}),
 		// slice-kinded errors: a slice that contains itself, two that contain each other, no cycle
 		mk("slice-kinded-cycle", 1, c07Node{Kind: "sl", Causes: []int{0}}, c07Node{Kind: "ew", Causes: []int{0}}),
 		mk("slice-kinded-cycle", 2, c07Node{Kind: "sl", Causes: []int{1, -1}}, c07Node{Kind: "sl", Causes: []int{0}}, c07Node{Kind: "ej", Causes: []int{0, 1}}),
